@@ -12,6 +12,26 @@ CHECKS = {
              note=T_BASE + '; loop shape (`for byte in data`, no break/continue, single state variable) checked structurally on the AST',
              technique='AST-generated verification conditions (bit-vector step lemma + loop invariant), z3',
              design_ref='DESIGN.md §5 C18'),
+ 'C06': dict(category='proof',
+             text='Per-operation two-sided contracts proved on the real Builder/Slice/TvmBitarray code for symbolic values at a '
+                  'symbolic fill level p (opaque prefix) and with an opaque rest R of symbolic length: store_X writes exactly the TL-B '
+                  'encoding from an independent spec (vf/spec/enc.py), load_X on enc ++ R returns the value and leaves R, preload_X '
+                  'returns the same and consumes nothing. Widths 1..257 and all var-int byte-length classes are exhaustive case '
+                  'splits; because P and R are generic the facts compose for every sequence/interleaving. Snake chains are proved '
+                  'for symbolic contents at fixed lengths around every cell boundary (bounded in length); the text form of '
+                  'addresses is a native bounded run (its parsing is C13).',
+             note=T_BASE + '; T2 UTF-8 encode/decode inverse pair for strings',
+             technique='contracts on the real functions, symbolic execution of the real code over all paths, z3 (LIA)',
+             design_ref='DESIGN.md §5 C06'),
+ 'C07': dict(category='proof',
+             text='Two-sided capacity/range contracts (raises iff value unrepresentable or |bits|+|enc|>1023 or |refs|+k>4; '
+                  'Inv(Builder) preserved) for every store incl. store_cell/store_slice at symbolic fill levels; read contracts on '
+                  'OPAQUE slices of symbolic length (raises iff fewer bits/refs remain, otherwise exactly the next n bits are '
+                  'returned and consumed); every Cell->Slice route (also from a plain bitarray) yields capacity-checked bits; '
+                  'end_cell/to_cell/to_slice of a builder satisfying the invariant yield exactly its bits/refs over abstract children.',
+             note=T_BASE,
+             technique='contracts (raises-iff, class invariant) on the real functions, symbolic execution over all paths, z3 (LIA)',
+             design_ref='DESIGN.md §5 C07'),
 }
 _NYB = 'not yet built in this session (framework under construction); see DESIGN.md §5 for the plan'
 NOT_APPLICABLE = {f'C{i:02d}': _NYB for i in range(1, 21) if f'C{i:02d}' not in CHECKS}
